@@ -539,6 +539,52 @@ theorem parse_serialize_twice (hC : C.Laws) (hT : WF T) (n : Nat) (c : ClassId) 
     ((parseN C T n c (serializeN C T n c t v)).bind fun w => parseN C T n c (serializeN C T n c t w)) = some v := by
   simp [parse_serialize C T hC hT n c t v h]
 
+/-! #### canonical forms: what the reader returns for values that are not canonical -/
+
+/-- **object arrays: parse ∘ serialize = canon** with `canon = reindex` (`_check_indices`): entries that carry arbitrary (stale)
+    indices, each otherwise well formed, within the length bounds of the container, are written as they are and read back
+    renumbered by position; `reindex` is idempotent (`reindex_idem`) and the identity on canonical entries (`reindex_of_canon`) -/
+theorem parseArray_canon (hC : C.Laws) (hT : WF T) (n : Nat) (c : ClassId) (a : ArrSpec) (ha : a.wf = true)
+    (name : Nat) (tag t : QName) (req : Bool) (kids items : List (Val P S))
+    (hall : ∀ b ∈ items, WFVal C T n c b) (hmin : a.minLen ≤ items.length) (hmax : items.length ≤ a.maxLen) (hne : items ≠ []) :
+    parseRow C (parseN C T n) (.mk t [] none (emitRow C (serializeN C T n) kids ⟨name, tag, tag, .array c a, req⟩ (.node items)))
+      ⟨name, tag, tag, .array c a, req⟩ = some (.node (reindex C a items)) := by
+  have hct : a.childTag = a.pChildTag := by
+    simp only [ArrSpec.wf, Bool.and_eq_true, beq_iff_eq] at ha; exact ha.1
+  have hemp : items.isEmpty = false := by cases items <;> simp_all
+  have hm := mapOpt_map (serializeN C T n c a.childTag) (parseN C T n c) items
+    (fun b hb => parse_serialize C T hC hT n c a.childTag b (hall b hb))
+  have hf : (items.map (serializeN C T n c a.childTag)).filter (hasTag a.pChildTag) = items.map (serializeN C T n c a.childTag) := by
+    rw [List.filter_eq_self]
+    intro x hx
+    rcases List.mem_map.1 hx with ⟨y, _, rfl⟩
+    simp [hasTag, serializeN_tag, hct]
+  have hsz := sizeOk_written C hC tag a ha items.length (items.map (serializeN C T n c a.childTag))
+  have hfin : finishArr C a items = some (.node (reindex C a items)) := by
+    unfold finishArr; simp [hmin, hmax]
+  simp only [parseRow, emitRow, hemp, Bool.false_eq_true, if_false, XmlNode.children, List.find?, hasTag, XmlNode.tag,
+    beq_self_eq_true, hf, List.length_map, hm, Option.bind_some, hfin]
+  simp
+  exact hsz
+
+/-- **parameter collections: parse ∘ serialize = canon** with `canon = dedupe` (OrderedDict semantics): entries are written in
+    the order given and read back in insertion order, a repeated name keeping its first position and taking its last value;
+    `dedupe` is idempotent (`dedupe_idem`) and the identity when the names are pairwise different (`dedupe_of_distinct`) -/
+theorem parseParams_canon (hC : C.Laws) (hT : WF T) (n : Nat) (c : ClassId)
+    (name : Nat) (tag t : QName) (req : Bool) (kids items : List (Val P S))
+    (hall : ∀ b ∈ items, WFVal C T n c b) (hne : items ≠ []) :
+    parseRow C (parseN C T n) (.mk t [] none (emitRow C (serializeN C T n) kids ⟨name, tag, tag, .params c none, req⟩ (.node items)))
+      ⟨name, tag, tag, .params c none, req⟩ = some (.node (dedupe C items)) := by
+  have hm := mapOpt_map (serializeN C T n c tag) (parseN C T n c) items
+    (fun b hb => parse_serialize C T hC hT n c tag b (hall b hb))
+  have hf : (items.map (serializeN C T n c tag)).filter (hasTag tag) = items.map (serializeN C T n c tag) := by
+    rw [List.filter_eq_self]
+    intro x hx
+    rcases List.mem_map.1 hx with ⟨y, _, rfl⟩
+    simp [hasTag, serializeN_tag]
+  have hne' : (items.map (serializeN C T n c tag)).isEmpty = false := by cases items <;> simp_all
+  simp only [parseRow, emitRow, XmlNode.children, hf, hne', Bool.false_eq_true, if_false, hm, Option.map_some]
+
 end xml
 
 /-! ### dict codec and copy -/
